@@ -196,6 +196,73 @@ theorem chord_le_two (u v : EuclideanSpace ℝ (Fin 3)) (hu : ‖u‖ = 1) (hv :
 
 theorem distance_clipped : distanceClipped = true := rfl
 
+theorem sgn_scale (c y : ℝ) (hc : 0 < c) : sgn (c * y) = sgn y := by
+  unfold sgn
+  have h0 : c * y = 0 ↔ y = 0 := by
+    constructor
+    · intro h; rcases mul_eq_zero.mp h with h | h
+      · exact absurd h hc.ne'
+      · exact h
+    · intro h; simp [h]
+  have hp : 0 < c * y ↔ 0 < y := by
+    constructor
+    · intro h; by_contra hy; push_neg at hy; nlinarith
+    · intro h; exact mul_pos hc h
+  by_cases hy : y = 0
+  · simp [hy]
+  · have : ¬ c * y = 0 := fun h => hy (h0.mp h)
+    simp only [this, hy, if_false]
+    by_cases hpos : 0 < y
+    · simp [hpos, hp.mpr hpos]
+    · have : ¬ 0 < c * y := fun h => hpos (hp.mp h)
+      simp [hpos, this]
+
+/-- `from_3d` only looks at the DIRECTION of a vector: scaling by a positive factor changes neither the right
+ascension nor the declination. -/
+theorem fromVec_scale (c x y z : ℝ) (hc : 0 < c) :
+    fromVecRa (c * x) (c * y) (c * z) = fromVecRa x y z ∧ fromVecDec (c * x) (c * y) (c * z) = fromVecDec x y z := by
+  have h2 : √(c * x * (c * x) + c * y * (c * y)) = c * √(x * x + y * y) := by
+    rw [show c * x * (c * x) + c * y * (c * y) = c ^ 2 * (x * x + y * y) by ring,
+      Real.sqrt_mul (sq_nonneg c), Real.sqrt_sq hc.le]
+  have h3 : √(c * x * (c * x) + c * y * (c * y) + c * z * (c * z)) = c * √(x * x + y * y + z * z) := by
+    rw [show c * x * (c * x) + c * y * (c * y) + c * z * (c * z) = c ^ 2 * (x * x + y * y + z * z) by ring,
+      Real.sqrt_mul (sq_nonneg c), Real.sqrt_sq hc.le]
+  constructor
+  · unfold fromVecRa
+    rw [h2, sgn_scale c y hc]
+    have hpos : 0 < c * √(x * x + y * y) ↔ 0 < √(x * x + y * y) := by
+      constructor
+      · intro h; by_contra hn; push_neg at hn
+        have := Real.sqrt_nonneg (x * x + y * y)
+        nlinarith
+      · intro h; exact mul_pos hc h
+    by_cases hr : 0 < √(x * x + y * y)
+    · simp only [hr, hpos.mpr hr, if_true, mul_div_mul_left _ _ hc.ne']
+    · have : ¬ 0 < c * √(x * x + y * y) := fun h => hr (hpos.mp h)
+      simp only [hr, this, if_false]
+  · unfold fromVecDec
+    rw [h3, mul_div_mul_left _ _ hc.ne']
+
+/-- Spherical mean (`AngularCoordinates.mean`: `from_3d(np.average(to_3d(), weights))`): the average vector is the
+weighted vector sum `(sx, sy, sz)` divided by the total weight `W > 0`, so the mean is the sky position of the DIRECTION
+of the vector sum — independent of the normalisation of the weights. -/
+theorem mean_direction (sx sy sz W : ℝ) (hW : 0 < W) :
+    fromVecRa (sx / W) (sy / W) (sz / W) = fromVecRa sx sy sz ∧
+    fromVecDec (sx / W) (sy / W) (sz / W) = fromVecDec sx sy sz := by
+  have h := fromVec_scale (1 / W) sx sy sz (by positivity)
+  simpa [div_eq_inv_mul] using h
+
+/-- … and a single point is its own mean (with `fromVec_toVec`): the mean of one coordinate in the canonical range is
+that coordinate, for any positive weight. -/
+theorem mean_single (ra dec w : ℝ) (hw : 0 < w) (hr0 : 0 ≤ ra) (hr1 : ra < 2 * π) (hd0 : -(π / 2) < dec) (hd1 : dec < π / 2) :
+    fromVecRa (w * toVecX ra dec / w) (w * toVecY ra dec / w) (w * toVecZ ra dec / w) = ra ∧
+    fromVecDec (w * toVecX ra dec / w) (w * toVecY ra dec / w) (w * toVecZ ra dec / w) = dec := by
+  have h1 : w * toVecX ra dec / w = toVecX ra dec := by field_simp
+  have h2 : w * toVecY ra dec / w = toVecY ra dec := by field_simp
+  have h3 : w * toVecZ ra dec / w = toVecZ ra dec := by field_simp
+  rw [h1, h2, h3]
+  exact fromVec_toVec ra dec hr0 hr1 hd0 hd1
+
 theorem mean_pinned : pinMean = "bfefa4b96cbd79b9" := by decide
 
 end Yaw.C14
